@@ -106,6 +106,10 @@ def run(ctx):
     ctx.extra["recorded_events_by_format_api_generator"] = kinds
     ctx.extra["profiles_identical"] = same
     ctx.extra["etc_blocks_outside_the_rules_in_random_payloads"] = open_blocks
+    by_dir = {}
+    for sg in ctx.viol:
+        by_dir[sg.get("dir")] = by_dir.get(sg.get("dir"), 0) + 1
+    ctx.extra["violations_by_direction"] = by_dir
     if open_blocks:
         raise vlib.ToolError("recorder produced %d ETC blocks outside the ETC1 rules" % open_blocks)
     ctx.exhaustive = True
